@@ -1,8 +1,57 @@
 import SLModel.Drv.Util
+import SLModel.Drv.Bm25Json
+import SLModel.Core.Quant
 open Lean
 namespace SL.Drv.C09
+open SL.Drv SL.Drv.BJ SL.Bm25 SL.TK SL.Quant
 
-/-- stub: no model operations for C09 yet -/
-def handle (_req : Json) : Except String Json := .error "C09: not implemented"
+/-- global doc number → (segment, ordinal) → id and `Float` score -/
+def render (segs : List Seg) (outs : List SegOut) (hs : List Hit) : Json :=
+  Json.arr (hs.map fun (_, g) =>
+    let si := g / segBase
+    let d := g % segBase
+    let id := match segs[si]? with
+      | some seg => (match seg[d]? with | some doc => doc.id | none => "?")
+      | none => "?"
+    let sc : Float := match outs[si]? with
+      | some o => (match o.fl.lookup d with | some (some s) => s | _ => 0.0)
+      | none => 0.0
+    Json.mkObj [("id", id), ("score", fl sc), ("seg", si), ("doc", d)]).toArray
+
+/-- `{"op":"search", …case…, "limit":n, "bmw_block_size":n|null}` →
+`{"bm25":[…],"wand":[…],"bmw":[…], flags…}` -/
+def handle (req : Json) : Except String Json := do
+  let op ← getStr req "op"
+  match op with
+  | "search" =>
+    let c ← parseCase req
+    let limit ← getNat req "limit"
+    let k := limit + 1
+    let bs := max 1 (getNatD req "bmw_block_size" 128)
+    let outs := c.segs.map (mkSegIn c.pr c.plan bs 1.0)
+    let ins := outs.map (·.inp)
+    let r (st : Strategy) := render c.segs outs (search st k limit ins)
+    -- monitored hypotheses / refinement, evaluated on this concrete instance
+    let boundsOk := ins.all boundsOk
+    let blockOk := ins.all blockBoundsOk
+    let refines := ins.all fun s =>
+      s.scan || wandLoop k false s.sc s.terms == wandRule k s.sc (ubsum s.terms) s.docs
+    let repaired := ins.all fun s =>
+      s.scan || wandRule k s.sc (blockSum s.terms) s.docs == brute k s
+    let cands : Nat := (ins.map (·.fin.length)).foldl (· + ·) 0
+    let maxPost : Nat := (ins.map fun s => (s.terms.map (·.posts.length)).foldl max 0).foldl max 0
+    return Json.mkObj [
+      ("bm25", r .bm25), ("wand", r .wand), ("bmw", r .bmw),
+      ("hook", c.plan.tree.custom),
+      ("scan", (qualified c.plan).isEmpty),
+      ("bounds_ok", boundsOk), ("valid_bounds", ins.all fun s => validBounds s.terms), ("wf", ins.all fun s => s.scan || s.wf), ("block_bounds_ok", blockOk),
+      ("refines", refines), ("repaired_bmw_eq_brute", repaired),
+      ("knife_wand", ins.any (fun s => !s.scan && knife k false s)),
+      ("knife_bmw", ins.any (fun s => !s.scan && knife k true s)),
+      ("negative", outs.any (·.neg)),
+      ("leaf_count", c.plan.leafCount),
+      ("candidates", cands),
+      ("max_postings", maxPost)]
+  | _ => throw s!"C09: unknown op {op}"
 
 end SL.Drv.C09
